@@ -97,6 +97,12 @@ def units(tier):
             continue
         runs.append(dict(solver='ProxNewton', datafit='Quadratic', penalty='L1', X=X, max_iter=1, max_pn_iter=1, p0=2,
                          fit_intercept=fi, ws_strategy='subdiff', warm=False))
+    # GroupBCD on designs with an all-zero / duplicated group, both scoring strategies: certificate of the returned point
+    for X, strat, fi in itertools.product(['zero_first32', 'zero_last32', 'dup32'], ('subdiff', 'fixpoint'), (False, True)):
+        if q and fi and X != 'zero_first32':
+            continue
+        runs.append(dict(solver='GroupBCD', datafit='QuadraticGroup', penalty='WeightedGroupL2', X=X, layout='single', max_iter=2,
+                         max_epochs=1, p0=1, fit_intercept=fi, ws_strategy=strat, warm=False, wg_concrete=[1.0, 0.5]))
     for c in runs:
         cid = ','.join('%s=%s' % (k, c[k]) for k in sorted(c))
         us.append(Unit('C19/D/run[%s]' % cid, u_degenerate, dict(cfg=c), wall_s=120, max_paths=4000, timeout_ms=8000,
